@@ -79,7 +79,8 @@ def source_consts():
                 env[m.group(1)] = _eval_const(m.group(2), env)
             except Exception:
                 pass
-        status = {k: v for k, v in env.items() if k.startswith("BLOCK_")}
+        # exactly the constants the model mirrors (a new, unrelated BLOCK_* constant is not part of the tie)
+        status = {k: v for k, v in env.items() if k in ("BLOCK_VALID_MASK", "BLOCK_VALID_SCRIPTS", "BLOCK_HAVE_DATA", "BLOCK_HAVE_UNDO", "BLOCK_FAILED_MASK")}
     except OSError:
         pass
     try:
